@@ -233,4 +233,43 @@ theorem sortGathered_indexError_witness : sortGathered [some 1] = .indexError :=
 
 theorem sortGathered_conflict_witness : sortGathered [some 0, some 0] = .conflict := by decide
 
+theorem placeFixed_ok (fx : List (Option Nat)) :
+    ∀ (i : Nat) (slots : Slots),
+      (∀ n : Nat, some n ∈ fx → n < slots.length ∧ slots[n]? = some none) → (fx.filterMap id).Nodup →
+      ∃ s', placeFixed i fx slots = .ok s' := by
+  induction fx with
+  | nil => intro i slots _ _; exact ⟨slots, rfl⟩
+  | cons a r ih =>
+    intro i slots h hd
+    cases a with
+    | none =>
+      simp only [placeFixed]
+      exact ih (i + 1) slots (fun n hn => h n (List.mem_cons_of_mem _ hn)) (by simpa using hd)
+    | some n =>
+      obtain ⟨hn, hs⟩ := h n (List.mem_cons_self ..)
+      simp only [List.filterMap_cons, id, List.nodup_cons] at hd
+      have hget : slots.getD n none = none := by
+        simp [List.getD_eq_getElem?_getD, hs]
+      simp only [placeFixed, hn, if_true, hget]
+      apply ih (i + 1) (slots.set n (some i))
+      · intro m hm
+        obtain ⟨hm1, hm2⟩ := h m (List.mem_cons_of_mem _ hm)
+        have hne : n ≠ m := by
+          intro e
+          subst e
+          exact hd.1 (List.mem_filterMap.mpr ⟨some n, hm, rfl⟩)
+        refine ⟨by rw [List.length_set]; exact hm1, ?_⟩
+        rw [List.getElem?_set_ne hne]
+        exact hm2
+      · exact hd.2
+
+/-- **No spurious rejection**: if the fixed locations are pairwise distinct and all lie inside the slot list the
+    function allocates (`itemsLength`; in particular whenever every `n < len(items)`), it returns. -/
+theorem sortGathered_ok (fx : List (Option Nat))
+    (hin : ∀ n : Nat, some n ∈ fx → n < itemsLength fx.length fx) (hd : (fx.filterMap id).Nodup) :
+    ∃ slots, sortGathered fx = .ok slots := by
+  obtain ⟨s', hs⟩ := placeFixed_ok fx 0 (List.replicate (itemsLength fx.length fx) none)
+    (fun n hn => ⟨by simpa using hin n hn, by simp [hin n hn]⟩) hd
+  exact ⟨fillVariable 0 fx s', by simp [sortGathered, hs]⟩
+
 end Litex.Csr
